@@ -77,22 +77,27 @@ def controls(rep, M, hdrs):
     # 2. move a gate by one minor version -> L6 must fire
     M3 = copy.copy(M)
     M3.trees = dict(M.trees)
+    ths = sorted(t for t in L.tree_thresholds(M.trees[("Pre", "read_push")]) if t < (3, 16))
+    target = ths[-1] if ths else None
 
     def bump(items):
         out = []
         for it in items:
             if it[0] == "gate":
                 f = it[1]
-                if f[0] == "gte" and (f[1], f[2]) == (3, 15):
-                    f = ("gte", 3, 16, f[3])
+                if f[0] == "gte" and (f[1], f[2]) == target:
+                    f = ("gte", f[1], f[2] + 1, f[3])
                 out.append(("gate", f, bump(it[2]), bump(it[3])))
             else:
                 out.append(it)
         return out
     M3.trees[("Pre", "read_push")] = bump(M.trees[("Pre", "read_push")])
+    if target:
+        M3.thresholds = set(M.thresholds) | {(target[0], target[1] + 1)}
+        M3.classes = sorted(M3.thresholds)
     r3 = common.Report("ctl", "quick")
     model.rule_L6(r3, M3, hdrs)
-    rep.control("L6 fires when the raw_analog_y gate moves from 3.15 to 3.16", bool(r3.violations))
+    rep.control("L6 fires when the last Pre gate below 3.16 moves by one minor version", bool(r3.violations))
     # 3. little-endian read -> L7 must fire
     M4 = copy.copy(M)
     M4.trees = dict(M.trees)
